@@ -50,6 +50,16 @@ def escape_rules(ctx, rule):
     for st in ("Initial", "UnquotedString", "QuotedString"):
         ok = all(any(o[0] == "escape" for o in tt[(st, 92, lc)]) for lc in (False, True))
         ctx.check(ok, rule, "backslash-honoured:" + st, "a backslash starts an escape in state %s" % st, "backslash is not an escape in state %s" % st, tfn.loc())
+    # a token that is being read is handed over when something ends it (whitespace, a comment, a parenthesis, a quote,
+    # the end of the entry): every such transition out of UnquotedString has a path that emits the token
+    lost = []
+    for (st, ch, lc), outs in tt.items():
+        if st != "UnquotedString" or ch >= 128:
+            continue
+        leaves = [o for o in outs if o[0] in ("special", "end-of-entry") and (len(o) < 3 or o[2] != "UnquotedString")]
+        if leaves and not any((len(o) >= 2 and o[1] is True) for o in outs) and not any(o[0] == "end-of-entry" for o in outs):
+            lost.append((ch, lc))
+    ctx.check(not lost, rule, "token-emitted-when-ended", "whatever ends an unquoted token also emits it", "the unquoted token is dropped when it is ended by %s" % sorted({chr(c) for c, _ in lost}), tfn.loc())
     ok = all(tt[("QuotedString", 34, lc)] == {("special", True, "Initial")} for lc in (False, True))
     ctx.check(ok, rule, "quote-closes", "a double quote ends a quoted token (emitting it even when empty)", "closing quote handling changed: %s" % tt[("QuotedString", 34, False)], tfn.loc())
     return wt, tt
@@ -321,6 +331,10 @@ def run(ctx):
     outs = [A.peel(e) for b, e in rets]
     ctx.check(all(o[0] == "call" and o[1] == ZS + "serialise_octets" and A.peel(o[2][1])[2] is False for o in outs) and bool(outs), "C13.5", "serialise_domain:escaped",
               "names are rendered through serialise_octets(.., unquoted)", "names bypass the escaping", sd.loc())
+    # the writer leaves none of its loops early: every name and every record is visited
+    ee = A.early_loop_exits(zs, zsc)
+    ctx.check(not ee, "C13.4", "Zone::serialise:no-early-exit", "the record loops end only when their iterator is exhausted",
+              "a record loop of Zone::serialise can be left early (records after that point are not written): %s" % [zs.loc(a) for h, a, s_ in ee], zs.loc())
     # every caller decides `quoted` with a literal: true only for the character-string / opaque RDATA fields (which are
     # written inside quotes), false for every name (a name is never quoted, so a space in it must be escaped)
     for fn_, b_, t_ in A.who_calls(prog, ZS + "serialise_octets"):
